@@ -759,7 +759,9 @@ def run(ctx):
     from . import C07
 
     from ..formula import imported
+    from ._treespec import rule_TS
 
+    rule_TS(ctx, owners=["tree.Tree", "tree_node.TreeNode", "visitors.PostOrderNodeUpdater", "visitors.PreOrderNodeRelabeller"])
     ctx._own_rules = set(ctx.rule_min)
     imported(ctx, C07.rule_V2)
 
